@@ -188,3 +188,245 @@ Example history_nontrivial :
   = {| d_done := true; d_failed := None; d_pid := false; d_lock := false; d_runs := 4; d_completed := 1 |}.
 Proof. vm_compute. reflexivity. Qed.
 
+(* ================================================================== round 2 *)
+(* ------------------------------------------------------------------ the derived part of Inv, apart from
+   the assumption "the lock is gone with the process" *)
+Lemma Inv_split : forall d, Inv d <-> (Truthful d /\ d_lock d = false).
+Proof. intros d. unfold Inv, Truthful. tauto. Qed.
+
+Lemma kill_anywhere_truthful : forall v d o dth, Inv d ->
+  Truthful (launch v d o dth) /\
+  (d_done (launch v d o dth) = true ->
+     d_done d = true \/ (success o = true /\ d_completed (launch v d o dth) = S (d_completed d))).
+Proof.
+  intros v d o dth H. destruct (kill_anywhere v d o dth H) as [I M]. split; [|exact M].
+  apply Inv_split in I. tauto.
+Qed.
+
+(* definitional (the model's `die`): NOT a result about the code, the operating system's behaviour *)
+Lemma lock_free_after_death_by_definition : forall v d o dth, d_lock (launch v d o dth) = false.
+Proof. reflexivity. Qed.
+
+Lemma histories_truthful : forall v l d, Inv d -> Truthful (history v d l).
+Proof. intros v l d H. apply Inv_split. apply histories, H. Qed.
+
+Lemma histories_fresh_truthful : forall v l,
+  let d := history v fresh l in
+  Truthful d /\
+  (forall o, d_runs (launch v d o None) = (if d_done d then d_runs d else S (d_runs d))).
+Proof.
+  intros v l d. destruct (histories_fresh v l) as [I R]. split; [|exact R].
+  apply Inv_split in I. tauto.
+Qed.
+
+(* ------------------------------------------------------------------ own exit (every repaired variant) *)
+Lemma own_exit_no_pid_v : forall v d o, v <> Prefix -> d_pid (launch v d o None) = false.
+Proof.
+  intros v d o Hv. split_dir d. destruct v; [congruence | |]; destruct dn, fl; split_outcome o; fin.
+Qed.
+
+(* a run that ends by itself has released the lock by its own code before the process is gone, and the
+   release is the last thing it does *)
+Lemma own_exit_lock_released : forall v d o, v <> Prefix ->
+  lock (run_effs (effects v o None d) (boot d)) = false /\
+  last (effects v o None d) RegAtexit = Unlock.
+Proof.
+  intros v d o Hv. split_dir d.
+  destruct v; [congruence | |]; destruct dn, fl; split_outcome o; split; reflexivity.
+Qed.
+
+(* ... while the code of the pinned commit releases it only by dying (successful return of the body) *)
+Lemma prefix_never_unlocks :
+  ~ In Unlock (effects Prefix OOk None fresh) /\
+  lock (run_effs (effects Prefix OOk None fresh) (boot fresh)) = true.
+Proof. split; [cbv; intuition discriminate|reflexivity]. Qed.
+
+(* ------------------------------------------------------------------ a signal handled without the lock *)
+Lemma map_snd_at : forall c b s, map snd (at_ c b s) = b s.
+Proof. intros. unfold at_. rewrite map_map. simpl. apply map_id. Qed.
+
+Lemma map_snd_tseq : forall a b s,
+  map snd (tseq a b s) = map snd (a s) ++ map snd (b (run_effs (map snd (a s)) s)).
+Proof. intros. unfold tseq. apply map_app. Qed.
+
+(* the run of a launch that finds no success marker = up to the beginning of the body, then the rest *)
+Lemma runner_split : forall v o d, d_done d = false ->
+  trace v o d = map snd (upto_body (boot d)) ++ map snd (from_body v o (at_body d)).
+Proof.
+  intros v o d. split_dir d. simpl. intros ->.
+  destruct fl, v; split_outcome o; reflexivity.
+Qed.
+
+(* a runner never gets further than three private steps without the lock *)
+Lemma before_lock_runner : forall v o s,
+  before_lock (map snd (runner v o s)) = [RegAtexit; SetTerm; SetInt].
+Proof. intros. reflexivity. Qed.
+
+(* the state of H in its body: the lock is held and noted, the handlers and the exit callback installed *)
+Lemma at_body_shape : forall d, d_done d = false ->
+  at_body d = {| done := false; failed := None; pid := true; lock := true; runs := S (d_runs d);
+                 completed := d_completed d; atexit := true; hterm := true; hint := true;
+                 cleaned := false; noted := true |}.
+Proof. intros d. split_dir d. simpl. intros ->. destruct fl; reflexivity. Qed.
+
+(* REPAIRED handler: whatever the signal, the point and the context, the second process leaves every
+   file of the directory as it found it *)
+Lemma waiter_silent : forall d ow dw, d_done d = false ->
+  double_mid Guarded d ow dw = snap (at_body d).
+Proof.
+  intros d ow [[g k] c] Hd. unfold double_mid, waiter_end, waiter_effects.
+  rewrite before_lock_runner. rewrite (at_body_shape d Hd).
+  destruct g, c; do 4 (destruct k as [|k]; [reflexivity|]); reflexivity.
+Qed.
+
+Lemma waiter_back : forall d ow dw, d_done d = false ->
+  back (at_body d) (waiter_end Guarded d ow dw) = at_body d.
+Proof.
+  intros d ow [[g k] c] Hd. unfold waiter_end, waiter_effects.
+  rewrite before_lock_runner. rewrite (at_body_shape d Hd).
+  destruct g, c; do 4 (destruct k as [|k]; [reflexivity|]); reflexivity.
+Qed.
+
+(* hence a double launch is the launch of H alone, with H's own death at the same place *)
+Lemma effects_shift : forall v o d dh, d_done d = false ->
+  effects v o (shift d dh) d = map snd (upto_body (boot d)) ++ double_effects v o dh (at_body d).
+Proof.
+  intros v o d dh Hd. unfold effects, double_effects. rewrite (runner_split v o d Hd).
+  destruct dh as [[[g k] c]|]; unfold shift; cbv beta iota zeta; [|reflexivity].
+  replace (length (upto_body (boot d))) with (length (map snd (upto_body (boot d)))) by apply map_length.
+  rewrite firstn_app_2. rewrite run_effs_app. rewrite <- app_assoc. reflexivity.
+Qed.
+
+Lemma double_is_single : forall d oh ow dw dh, d_done d = false ->
+  double Guarded d oh ow dw dh = launch Guarded d oh (shift d dh).
+Proof.
+  intros d oh ow dw dh Hd. unfold double. rewrite (waiter_back d ow dw Hd).
+  unfold launch. rewrite (effects_shift Guarded oh d dh Hd). rewrite run_effs_app. reflexivity.
+Qed.
+
+(* the markers of a double launch tell the truth about H's body (H ends by itself) *)
+Lemma double_truthful : forall d oh ow dw, d_done d = false ->
+  let d' := double Guarded d oh ow dw None in
+  d_done d' = success oh /\
+  (success oh = true -> d_failed d' = None) /\
+  (success oh = false -> oh <> OBase -> d_failed d' <> None) /\
+  d_pid d' = false /\
+  d_runs d' = S (d_runs d) /\
+  d_completed d' = (if success oh then S (d_completed d) else d_completed d).
+Proof.
+  intros d oh ow dw Hd. cbv zeta. rewrite (double_is_single d oh ow dw None Hd). simpl shift.
+  split_dir d. simpl in Hd. subst dn. destruct fl; split_outcome oh; fin.
+Qed.
+
+Lemma double_inv : forall d oh ow dw dh, Inv d -> d_done d = false ->
+  Truthful (double Guarded d oh ow dw dh) /\
+  (d_done (double Guarded d oh ow dw dh) = true -> success oh = true).
+Proof.
+  intros d oh ow dw dh HI Hd. rewrite (double_is_single d oh ow dw dh Hd).
+  destruct (kill_anywhere_truthful Guarded d oh (shift d dh) HI) as [T M]. split; [exact T|].
+  intros H. destruct (M H) as [A|[A _]]; [congruence|exact A].
+Qed.
+
+(* LITERAL handler (the code of /repo 3854c75): the property is refuted.  H runs a body that succeeds and
+   is never disturbed; W gets SIGTERM while it waits for the lock (3 effects done, inside the try).
+   While H is still in its body the directory shows a failure marker and no pid file; at the end both
+   markers are there although the only run of the body succeeded. *)
+Lemma waiter_marks_failed_refuted :
+  exists d oh ow dw,
+    Inv d /\ d_done d = false /\ success oh = true /\
+    nth_error (trace Fixed ow d) 3 = Some Lock /\ dw = (STerm, 3, CTry) /\
+    d_failed (double_mid Fixed d ow dw) = Some 1%Z /\ d_pid (double_mid Fixed d ow dw) = false /\
+    d_lock (double_mid Fixed d ow dw) = true /\
+    d_done (double Fixed d oh ow dw None) = true /\ d_failed (double Fixed d oh ow dw None) = Some 1%Z /\
+    d_runs (double Fixed d oh ow dw None) = 1 /\ d_completed (double Fixed d oh ow dw None) = 1.
+Proof.
+  exists fresh, OOk, OOk, (STerm, 3, CTry). split; [apply Inv_fresh|].
+  vm_compute. repeat split; reflexivity.
+Qed.
+
+(* the literal handler is wrong exactly for the termination signals that find it installed, and for
+   SIGINT before that (the exit callback removes the pid file); SIGKILL and the default SIGTERM are harmless *)
+Example literal_waiter_cases :
+  double_mid Fixed fresh OOk (SKill, 3, CTry) = snap (at_body fresh) /\
+  double_mid Fixed fresh OOk (STerm, 1, CProp) = snap (at_body fresh) /\
+  d_pid (double_mid Fixed fresh OOk (SInt, 1, CProp)) = false /\
+  d_failed (double_mid Fixed fresh OOk (SInt, 3, CProp)) = Some 2%Z /\
+  d_failed (double_mid Prefix fresh OOk (STerm, 2, CProp)) = Some 15%Z.
+Proof. vm_compute. repeat split; reflexivity. Qed.
+
+(* non-vacuity: the hypotheses of the two-process lemmas are met, both processes die *)
+Example double_nontrivial :
+  d_done fresh = false /\ Inv fresh /\
+  double Guarded fresh OOk ORaise (SInt, 3, CTry) None
+    = {| d_done := true; d_failed := None; d_pid := false; d_lock := false; d_runs := 1; d_completed := 1 |} /\
+  double Guarded fresh (OExit 3) OOk (STerm, 2, CProp) (Some (SKill, 1, CProp))
+    = {| d_done := false; d_failed := None; d_pid := true; d_lock := false; d_runs := 1; d_completed := 0 |} /\
+  double Guarded fresh OOk OOk (STerm, 7, CTry) (Some (STerm, 0, CTry))
+    = {| d_done := false; d_failed := Some 1%Z; d_pid := false; d_lock := false; d_runs := 1; d_completed := 0 |}.
+Proof. split; [reflexivity|]. split; [apply Inv_fresh|]. vm_compute. repeat split; reflexivity. Qed.
+
+(* ------------------------------------------------------------------ a second death inside the handler *)
+Lemma forallb_firstn : forall {A} (f : A -> bool) j l, forallb f l = true -> forallb f (firstn j l) = true.
+Proof.
+  intros A f j. induction j as [|j IH]; intros [|x l] H; simpl in *; auto.
+  apply andb_true_iff in H. destruct H as [Hx Hl]. rewrite Hx. simpl. auto.
+Qed.
+
+(* the success marker and the counters do not depend on how far the handler got *)
+Lemma launch2_fields : forall v d o dth j,
+  d_done (launch2 v d o dth j) = d_done (launch v d o (Some dth)) /\
+  d_runs (launch2 v d o dth j) = d_runs (launch v d o (Some dth)) /\
+  d_completed (launch2 v d o dth j) = d_completed (launch v d o (Some dth)) /\
+  d_lock (launch2 v d o dth j) = false.
+Proof.
+  intros v d o [[g k] c] j.
+  destruct (launch_death_fields v d o g k c) as (A & B & C & _). cbv zeta in A, B, C. rewrite A, B, C.
+  unfold launch2, effects2. rewrite run_effs_app.
+  set (s := run_effs (firstn k (trace v o d)) (boot d)).
+  destruct (run_quiet (firstn j (on_signal v g c s)) s (forallb_firstn quiet j _ (on_signal_quiet v g c s)))
+    as (A' & B' & C').
+  unfold die; simpl. auto.
+Qed.
+
+Lemma kill_anywhere_f : forall v d o f, Inv d ->
+  Inv (launchf v d o f) /\
+  (d_done (launchf v d o f) = true ->
+     d_done d = true \/ (success o = true /\ d_completed (launchf v d o f) = S (d_completed d))).
+Proof.
+  intros v d o [|dth|dth j] H; simpl launchf; try apply (kill_anywhere v d o _ H).
+  destruct (launch2_fields v d o dth j) as (A & B & C & D).
+  destruct (kill_anywhere v d o (Some dth) H) as [(I1 & I2 & I3) M].
+  unfold Inv. rewrite A, B, C, D. auto.
+Qed.
+
+Lemma histories_f : forall v l d, Inv d -> Truthful (historyf v d l).
+Proof.
+  intros v l d H. apply Inv_split.
+  revert d H. induction l as [|[o f] l IH]; intros d H; simpl.
+  - exact H.
+  - apply IH. apply (kill_anywhere_f v d o f H).
+Qed.
+
+Lemma relaunch_f : forall v d o f,
+  let d' := launchf v d o f in
+  (d_done d = true -> d_done d' = true /\ d_runs d' = d_runs d /\ d_completed d' = d_completed d) /\
+  (d_runs d' = d_runs d \/ (d_done d = false /\ d_runs d' = S (d_runs d))).
+Proof.
+  intros v d o [|dth|dth j]; cbv zeta; simpl launchf.
+  - split; [apply relaunch_done_skips | apply relaunch_at_most_once].
+  - split; [apply relaunch_done_skips | apply relaunch_at_most_once].
+  - destruct (launch2_fields v d o dth j) as (A & B & C & D). rewrite A, B, C.
+    split; [apply relaunch_done_skips | apply relaunch_at_most_once].
+Qed.
+
+(* the clause about termination signals presupposes that the handler is left alone: a SIGKILL right
+   after the SIGTERM leaves no failure marker (and the pid file) *)
+Example kill_in_handler_cases :
+  launch2 Guarded fresh OOk (STerm, 7, CTry) 0
+    = {| d_done := false; d_failed := None; d_pid := true; d_lock := false; d_runs := 1; d_completed := 0 |} /\
+  launch2 Guarded fresh OOk (STerm, 7, CTry) 2
+    = {| d_done := false; d_failed := Some 15%Z; d_pid := true; d_lock := false; d_runs := 1; d_completed := 0 |} /\
+  launch2 Guarded fresh OOk (STerm, 7, CTry) 9 = launch Guarded fresh OOk (Some (STerm, 7, CTry)) /\
+  historyf Guarded fresh [(OOk, DiesTwice (STerm, 7, CTry) 3); (ORaise, Dies (SKill, 9, CTry)); (OOk, Alone)]
+    = {| d_done := true; d_failed := None; d_pid := false; d_lock := false; d_runs := 3; d_completed := 1 |}.
+Proof. vm_compute. repeat split; reflexivity. Qed.
